@@ -643,6 +643,10 @@ enum Cls {
     NoSqrt,
     OffCurve,
     OutSub(usize),
+    /// curve point outside the subgroup generated by G on an INCOMPLETE Edwards curve: whether the library's
+    /// r*P test answers "no" there is not decided by the property (it speaks about complete curves and the
+    /// prime-order subgroup): only no-panic, no over-read and "a returned point is on the curve" are demanded
+    Undecided(usize),
     Valid(usize),
 }
 impl Cls {
@@ -659,6 +663,7 @@ impl Cls {
             Cls::NoSqrt => loc.class("no_sqrt"),
             Cls::OffCurve => loc.class("off_curve_rejected"),
             Cls::OutSub(_) => loc.class("out_of_subgroup_rejected"),
+            Cls::Undecided(_) => loc.class("te_incomplete:outside_subgroup_undecided"),
             Cls::Valid(_) => loc.class("valid_subgroup_point"),
         }
     }
@@ -812,7 +817,8 @@ where
 {
     let t = TeToy::<P>::new(name);
     t.validate(ctx);
-    ctx.validate(t.complete, &format!("{name}: complete Edwards parameters (required for the exhaustive byte sweep)"));
+    // incomplete parameters (a non-square): inputs that decode to a curve point outside <G> are "undecided"
+    let complete = t.complete;
     let m = Small::new(t.p, 1);
     let mut by_y: Vec<Vec<(u64, usize)>> = vec![Vec::new(); t.p as usize];
     for i in 0..t.n() {
@@ -852,8 +858,10 @@ where
                             loc.class_if(pick.0 == 0, "x=0_tie");
                             if t.in_subgroup[pick.1] {
                                 Cls::Valid(pick.1)
-                            } else {
+                            } else if complete {
                                 Cls::OutSub(pick.1)
+                            } else {
+                                Cls::Undecided(pick.1)
                             }
                         }
                     }
@@ -863,7 +871,8 @@ where
                     (SDec::Ok(cx, _), SDec::Ok(cy, _)) => match t.g.index.get(&Pt::A(cx[0], cy[0])) {
                         None => Cls::OffCurve,
                         Some(i) if t.in_subgroup[*i] => Cls::Valid(*i),
-                        Some(i) => Cls::OutSub(*i),
+                        Some(i) if complete => Cls::OutSub(*i),
+                        Some(i) => Cls::Undecided(*i),
                     },
                     _ => Cls::BadInt,
                 }
@@ -882,7 +891,7 @@ where
                 }
             });
             let consumed = rd.pos;
-            judge_point(loc, &TE_TOY_SITES, &what, cls, checked, &|i| t.in_subgroup[i], res, consumed, advertised);
+            judge_point(loc, &TE_TOY_SITES, &what, cls, checked, &|i| t.in_subgroup[i] || !complete, res, consumed, advertised);
         });
     }
 }
@@ -2097,9 +2106,10 @@ fn main() {
     let quick_sel = ["SwP61A0B2", "SwP61A0B8", "SwP59A1B3", "SwP59A1B8", "SwP251A1B6", "SwP127A1B2", "SwP13A0B2", "SwP13A0B4", "SwP31A2B2", "TeP127", "TeP101", "TeP13"];
     let thorough_sel = ["SwP61A0B2", "SwP61A0B8", "SwP59A1B3", "SwP59A1B8", "SwP251A1B6", "SwP127A1B2", "SwP13A0B2", "SwP13A0B4", "SwP31A2B2", "TeP127", "TeP101", "TeP13", "SwA0P103B5", "SwA0P211B2", "SwA0P103B4", "SwA0P103B3", "SwA0P103B2", "SwP223A1B1", "SwP1009A3B2", "TeP241"];
     let sel: Vec<&str> = if ctx.quick() { quick_sel.to_vec() } else { thorough_sel.to_vec() };
-    ctx.assume("TeP103 (incomplete Edwards parameters) is excluded: the library's subgroup test is only specified on complete curves / the prime-order subgroup");
+    ctx.assume("TeP103 (incomplete Edwards parameters): every byte string is still fed to the deserializers (no panic, no over-read, a returned point is on the curve, subgroup points accepted, malformed encodings rejected), but whether a curve point OUTSIDE the prime-order subgroup is rejected is not judged there - the property speaks about complete curves / the prime-order subgroup");
     algebra_mc::toy_sw_curves!(toy_sw, &mut ctx, sel);
     algebra_mc::toy_te_curves!(toy_te, &mut ctx, sel);
+    te_toy_bytes::<algebra_mc::toy::gen_curves::TeP103>(&mut ctx, "TeP103");
     // ---- (E2) toy curves over quadratic extension fields (decompression = square root in F_p^2)
     ctx.bound(
         "bytes_ext_toy",
